@@ -10,6 +10,7 @@ archive contains.
 import ZoektModel.C15.Lemmas
 import ZoektModel.C15.WalkLemmas
 import ZoektModel.C15.GlobLemmas
+import ZoektModel.C15.Nodup
 namespace ZoektModel.C15
 open ZoektModel
 
@@ -142,6 +143,18 @@ theorem dir_docs_exact (cfg : WalkCfg) (nm : String) (cs : List Node) :
   · simp [h1]
   · simp [h1, walkKids_spec, wanted, pathOk_eq_okExt]
 
+/-- **one document per file, without duplicates**: in a tree whose directories have distinctly named entries,
+    the walked entries have pairwise distinct paths (hence distinct document names) -/
+theorem dir_docs_distinct (cfg : WalkCfg) (nm : String) (cs : List Node) (hwf : wfNode (.dir nm cs)) :
+    ((walk cfg (.dir nm cs)).map fun e => e.path).Nodup := by
+  rw [dir_docs_exact, List.map_map]
+  have hfun : ((fun e : Entry => e.path) ∘ mkEntry) = Prod.fst := by funext qn; rfl
+  rw [hfun]
+  unfold expectedEntries
+  split
+  · simp
+  · exact List.Nodup.sublist ((List.filter_sublist).map Prod.fst) (below_nodup _ [] hwf)
+
 /-- every walked entry lies strictly below the root, so its document name is the slash-relative path -/
 theorem expected_paths_nonempty (cfg : WalkCfg) (root : Node) :
     ∀ pn ∈ expectedEntries cfg root, pn.1 ≠ [] := by
@@ -267,5 +280,8 @@ def exCfg : WalkCfg := ⟨[".git"], fun p => p == "src/gen.go"⟩
 example : (expectedEntries exCfg exTree).map (fun pn => relStr pn.1) = ["a.txt", "l", "src/m.go"] := by decide
 example : (walk exCfg exTree).map (fun e => relStr e.path) = ["a.txt", "l", "src/m.go"] := by
   rw [exTree, dir_docs_exact]; decide
+
+example : ((walk exCfg exTree).map fun e => e.path).Nodup := by
+  rw [exTree]; exact dir_docs_distinct _ _ _ (by simp [wfNode, wfKids, Node.name])
 
 end ZoektModel.C15
